@@ -21,7 +21,8 @@ path where units differ and the ufunc is evaluated on (left, rescaled right); th
 by the unit rule multiplies the result (and out=) on every exit; reductions of multiply/divide use the exponent map n
 and 2-n; sin/cos/tan convert angles to radian first; power accepts only a dimensionless, effectively scalar exponent
 when the base has units.
-(R2, extended) the rescaling block is entered whenever the units differ by value; (R9) that decision rests on Unit.__eq__ comparing scale and offset with a purely relative tolerance (shared with C05-R2)."""
+(R2, extended) the rescaling block is entered whenever the units differ by value; (R9) that decision rests on Unit.__eq__ comparing scale and offset with a purely relative tolerance (shared with C05-R2).
+(R13) a quantity exponent in a scaled dimensionless unit (percent) is re-expressed as a pure number before float() and NumPy read it, on every accepting path of the power block."""
 LEVEL_NOTE = """Undecided: numerical equality of results; sympy's simplify/_cancel_mul internals (only the coefficient
 hand-over is checked, C05-R4). The rounding family, frexp/modf/spacing, divmod, heaviside, nextafter are outside the
 claim exactly as in the property statement (only their C01 class is checked there)."""
@@ -402,6 +403,66 @@ def power_gate(repo, res, a: UfuncAnchors):
             why.append("array exponent not shown to be constant although the base may carry units")
         res.check(ok, key, fn.where(blk), "power: " + "; ".join(why), rid=r6)
     res.check(n >= 2, "paths", fn.where(blk), "power gate has accepting paths", rid=r6)
+    exponent_reduced(res, fn, blk)
+
+
+def exponent_reduced(res, fn, blk):
+    """The exponent's *number* is what float(u1) and NumPy's power read.  A quantity exponent in a scaled dimensionless
+    unit (50 percent) must therefore be re-expressed as a pure number before either reads it: on every accepting path of
+    the power block the data operand was re-bound to a conversion of itself, or the path knows that it is not a quantity,
+    that its unit has scale 1, or that it carries a dimension (refused by the gate, C04-R6)."""
+    r13 = res.rule("C04-R13", "power: an exponent given as a quantity in a scaled dimensionless unit (percent) is reduced to a pure number before its value is read - by the unit exponent and by NumPy alike", floor=2)
+    CONV = ("in_units", "to", "in_base", "to_value")
+    bad = []
+    n = n_conv = 0
+    for p in enum_paths(blk.body):
+        if p[-1][0] == "raise":
+            continue
+        n += 1
+        data = None  # the name the exponent's data is read from: the right-hand side of the first `u1 = <name>`
+        converted = set()
+        for ev in p:
+            if ev[0] != "stmt" or not isinstance(ev[1], ast.Assign) or len(ev[1].targets) != 1:
+                continue
+            tgt, val = norm(ev[1].targets[0]), ev[1].value
+            if isinstance(val, ast.Call) and isinstance(val.func, ast.Attribute) and val.func.attr in CONV and norm(val.func.value) == tgt:
+                if data is None:
+                    converted.add(tgt)
+            elif tgt == "u1" and data is None and isinstance(val, ast.Name):
+                data = val.id
+        if data is None:
+            raise AnalysisError(f"{fn.where(blk)}: power block no longer binds u1 to the exponent operand")
+        facts = [(t, tr) for t, tr, _ in path_facts(p)]
+        def lit(t, tr):
+            for nm in (data, "u1"):
+                if t == f"isinstance({nm}, unyt_array)" and tr is False:
+                    return True
+                if t == f"{nm}.units.is_dimensionless" and tr is False:
+                    return True
+                if t in (f"{nm}.units.base_value != 1.0", f"{nm}.units.base_value != 1", f"({nm}.units.base_value != 1.0)") and tr is False:
+                    return True
+                if t in (f"{nm}.units.base_value == 1.0", f"{nm}.units.base_value == 1") and tr is True:
+                    return True
+            return False
+
+        excused = False
+        for t, tr in facts:
+            if lit(t, tr):
+                excused = True
+                continue
+            try:
+                e = ast.parse(t, mode="eval").body
+            except SyntaxError:
+                continue
+            # a conjunction known to be false: one conjunct fails - excused when the failure of each of them excuses
+            if isinstance(e, ast.BoolOp) and isinstance(e.op, ast.And) and tr is False and all(lit(norm(c), False) for c in e.values):
+                excused = True
+        if data in converted:
+            n_conv += 1
+        elif not excused:
+            bad.append(",".join(f"{t}={tr}" for t, tr in facts)[:160])
+    res.check(not bad and n >= 2, "exponent:reduced", fn.where(blk), "power: the exponent operand may be a quantity in percent (scale 0.01) whose raw magnitude is read as the exponent: 2.0 ** (50 percent) evaluates 2**50, (4 m) ** (50 percent) is labelled m**50", f"`{'<exponent>'} = <exponent>.in_units(<null unit>)` before the exponent is read, on every accepting path that does not exclude a scaled dimensionless quantity", bad[:3], rid=r13)
+    res.check(n_conv >= 1, "exponent:conversion-present", fn.where(blk), "power: no path re-expresses a quantity exponent as a pure number", rid=r13)
 
 
 UO = "unyt/unit_object.py"
@@ -425,6 +486,9 @@ MUTANTS = [
     Mutant("power-map-size", ARR, "_apply_power_mapping", "unit = in_unit ** (power_map(in_size))", "unit = in_unit ** (in_size)", ("C04-R4",)),
     Mutant("trig-drop-tan", ARR, None, "trigonometric_operators = (sin, cos, tan)", "trigonometric_operators = (sin, cos)", ("C04-R5",)),
     Mutant("trig-degree", ARR, "unyt_array.__array_ufunc__", 'inp.in_units("radian").v', 'inp.in_units("degree").v', ("C04-R5",)),
+    Mutant("power-exponent-raw-percent", ARR, "unyt_array.__array_ufunc__", "                    inp1 = inp1.in_units(Unit(registry=inp1.units.registry))\n", "                    pass\n", ("C04-R13",)),
+    Mutant("power-exponent-reduced-after-read", ARR, "unyt_array.__array_ufunc__", "                    inp1 = inp1.in_units(Unit(registry=inp1.units.registry))\n                u1 = inp1\n", "                    u1 = inp1\n                    inp1 = inp1.in_units(Unit(registry=inp1.units.registry))\n                else:\n                    u1 = inp1\n", ("C04-R13", "C04-R6")),
+    Mutant("twin-power-exponent-to", ARR, "unyt_array.__array_ufunc__", "                    inp1 = inp1.in_units(Unit(registry=inp1.units.registry))\n", "                    inp1 = inp1.to(Unit(registry=inp1.units.registry))\n", (), benign=True),
     Mutant("power-units-unchecked", ARR, "unyt_array.__array_ufunc__", "                elif inp0.shape == inp1.shape:\n                    if isinstance(u1, unyt_array) and not u1.units.is_dimensionless:\n                        raise UnitOperationError(ufunc, u0, getattr(u1, \"units\", None))\n", "                elif inp0.shape == inp1.shape:\n", ("C04-R6",)),
     Mutant("twin-reg-order", ARR, None, "        sqrt: _sqrt_unit,\n        cbrt: _cbrt_unit,\n", "        cbrt: _cbrt_unit,\n        sqrt: _sqrt_unit,\n", (), benign=True),
     Mutant("twin-sqrt-rational", ARR, "_sqrt_unit", "unit**0.5", "unit ** (1 / 2)", (), benign=True),
